@@ -489,8 +489,10 @@ class MinMaxAndCount(base.MergeableMetric):
 
   def merge(self, other: 'MinMaxAndCount') -> 'MinMaxAndCount':
     self._count += other.count
-    self._min = np.min((self._min, other.min), axis=self.axis)
-    self._max = np.max((self._max, other.max), axis=self.axis)
+    # Element-wise, so that a fresh (scalar) state broadcasts against the
+    # per-axis minimums and maximums.
+    self._min = np.minimum(self._min, other.min)
+    self._max = np.maximum(self._max, other.max)
 
     return self
 
